@@ -58,24 +58,30 @@ class SandboxCoverageTracer(SandboxBasicTracer):
         self.pc_covered = None
         self.missing = set()
         self.lines = set()
+        # What each activation replaced: the tracer is entered again while active
+        # when student code imports another file of the submission
+        self._activations = []
 
     def __enter__(self):
+        previous_trace = sys.gettrace()
         # Force coverage to accept the code
-        self.original = coverage.python.get_python_source
+        self.original = original = coverage.python.get_python_source
 
         def _get_source_correctly(reading_filename):
             if reading_filename == self.filename:
                 return self.code
             else:
-                return self.original(reading_filename)
+                return original(reading_filename)
 
         self.p = patch('coverage.python.get_python_source', _get_source_correctly)
         self.p.start()
         #coverage.python.get_python_source = _get_source_correctly
         self.coverage = coverage.Coverage()
         self.coverage.start()
+        self._activations.append((self.coverage, self.p, previous_trace))
 
     def __exit__(self, exc_type, exc_val, traceback):
+        self.coverage, self.p, previous_trace = self._activations.pop()
         self.coverage.stop()
         self.coverage.save()
         # Restore the get_python_source reader
@@ -91,6 +97,11 @@ class SandboxCoverageTracer(SandboxBasicTracer):
 
         self.p.stop()
         self.original = None
+        # Coverage leaves no trace function behind; put back the one that was there.
+        # (This frame was entered while coverage was tracing, so it still carries coverage's
+        # local trace function, which would remove whatever is installed when the frame returns.)
+        sys._getframe().f_trace = None
+        sys.settrace(previous_trace)
 
     
     @property
